@@ -277,7 +277,7 @@ impl<B: Backend> World<B> {
                     return;
                 }
                 if got != want {
-                    self.violate(&["C01"], "setter_return_value", format!("set({:?}) returned {:?}, previous value was {:?}", v, got, want));
+                    self.violate(&["C01", "C04"], "setter_return_value", format!("set({:?}) returned {:?}, previous value was {:?}", v, got, want));
                 }
             }
             SetIfNotEq(i, v) | SetIfHashNotEq(i, v) => {
@@ -311,7 +311,7 @@ impl<B: Backend> World<B> {
                     return;
                 }
                 if got != want {
-                    self.violate(&["C01"], "setter_return_value", format!("{:?} returned {:?}, expected {:?}", step, got, want));
+                    self.violate(&["C01", "C04"], "setter_return_value", format!("{:?} returned {:?}, expected {:?}", step, got, want));
                 }
             }
             Take(i) => {
@@ -328,7 +328,7 @@ impl<B: Backend> World<B> {
                     return;
                 }
                 if got != want {
-                    self.violate(&["C01"], "setter_return_value", format!("take() returned {:?}, previous value was {:?}", got, want));
+                    self.violate(&["C01", "C04"], "setter_return_value", format!("take() returned {:?}, previous value was {:?}", got, want));
                 }
             }
             Update(i, t) => {
@@ -447,7 +447,7 @@ impl<B: Backend> World<B> {
                     return;
                 }
                 if got != self.model.value {
-                    self.violate(&["C01"], "owner_read_value", format!("{:?} returned {:?}, stored value is {:?}", step, got, self.model.value));
+                    self.violate(&["C01", "C04"], "owner_read_value", format!("{:?} returned {:?}, stored value is {:?}", step, got, self.model.value));
                 }
             }
             CloneOwner(i) => {
@@ -612,7 +612,7 @@ impl<B: Backend> World<B> {
                     self.counters.inc("probe.read_after_end");
                 }
                 if got != want {
-                    self.violate(&["C01", "C03"], "subscriber_read_value", format!("{:?} handed out {:?}, the value most recently stored is {:?}", step, got, want));
+                    self.violate(&["C01", "C03", "C04"], "subscriber_read_value", format!("{:?} handed out {:?}, the value most recently stored is {:?}", step, got, want));
                 }
                 return;
             }
